@@ -1,7 +1,7 @@
 (* Props/C03.v — C03: query results are well-formed, window-clipped, chronologically ordered
    streams; stored timelines return their events in (start, end) order.  Statements only. *)
 From CG Require Import Proofs.Defs Proofs.Compl Proofs.Merge Proofs.Diff Proofs.InterDisjoint
-     Proofs.Clip Proofs.Stored Proofs.RefSpec.
+     Proofs.Clip Proofs.Stored Proofs.RefSpec Proofs.Assembly.
 
 (* SortedList insertion keeps (start, end) order for every insertion history *)
 Theorem C03_stored_start_end_order : forall evs, sorted_key (sl_build evs) = true.
@@ -57,6 +57,14 @@ Theorem C03_complement_wf : forall xs a b,
   canonical a b (compl_sweep xs a b) = true.
 Proof. exact compl_sweep_canonical. Qed.
 Print Assumptions C03_complement_wf.
+
+(* ---- whole expression trees ([good], see Props/C01.v), every window: every element of a forward
+   slice is non-empty, inside the window, sentinel-free, and starts are non-decreasing ---- *)
+Theorem C03_forward_wf : forall env e a b,
+  good env e -> wf_win' a b ->
+  stream_wf (fst (norm_bounds a b)) (snd (norm_bounds a b)) false (slice env e a b false) = true.
+Proof. exact Assembly.C03_forward_wf. Qed.
+Print Assumptions C03_forward_wf.
 
 (* KF-D1 also breaks order: fragments of overlapping source events come out of start order *)
 Theorem C03_difference_order_refuted :
